@@ -32,7 +32,9 @@
     the case-folded name — or the prefix at which an implicit-write command cut it short),
     `C02_line_resolves` (name + LF: after ≤ (|name|+1)·(commandsNum+1) calls the parser is in
     COMMAND_FOUND with exactly the entry `Spec.resolve` selects, type RUN, or has given up; or an
-    implicit-write command took the prefix and the request is WRITE), `C02_found_run_invokes`
+    implicit-write command took the prefix and the request is WRITE), `C02_request_resolves` (the
+    same for all three request forms that start a search: LF — RUN, `?` LF — READ, `=` — WRITE with
+    the argument text left in the queue), `C02_found_run_invokes`
     (from there the next two calls invoke the run handler of that entry and no other, or answer
     ERROR when it has none).
 -/
@@ -330,6 +332,26 @@ theorem C02_line_resolves (D : Desc) (tmpl : SvcIn) (s0 : St)
           s'.state = .commandFound ∧ s'.cmd = some j) ∧
       (Spec.resolve (Spec.lane D (p.map toUpper)) D.commandsNum = none → NotFound s') :=
   feed_line D tmpl s0 hcap hbuf hnum hst hl0 hlen hidx hct cs hne hall rest
+
+/-- **Name resolution, end to end, for the three request forms that start a search**: name + LF
+(RUN), name + `?` + LF (READ), name + `=` (WRITE, the argument text follows). -/
+theorem C02_request_resolves (D : Desc) (tmpl : SvcIn) (s0 : St)
+    (hcap : D.commandsNum ≤ 4 * D.cmdCap) (hbuf : D.cmdCap ≤ s0.buf.length) (hnum : 0 < D.commandsNum)
+    (hst : s0.state = .parseCommandChar) (hl0 : Lanes D s0 []) (hlen : s0.length = 0) (hidx : s0.index = 0)
+    (hct : s0.cmdType = .run)
+    (cs : List Byte) (hne : cs ≠ []) (hall : ∀ b ∈ cs, NameCh b) (sfx : List Byte) (typ : CmdType) (hsfx : Suffix sfx typ)
+    (rest : List Byte) :
+    ∃ (n : Nat) (p q : List Byte) (s' : St), n ≤ (cs.length + 1) * (D.commandsNum + 1) + 1 ∧ cs = p ++ q ∧ p ≠ [] ∧
+      ((q = [] ∧ feed D tmpl n s0 (cs ++ (sfx ++ rest)) = (s', rest) ∧ s'.cmdType = typ) ∨
+       (feed D tmpl n s0 (cs ++ (sfx ++ rest)) = (s', q ++ (sfx ++ rest)) ∧ s'.cmdType = .write)) ∧
+      (∀ j, Spec.resolve (Spec.lane D (p.map toUpper)) D.commandsNum = some j →
+          s'.state = .commandFound ∧ s'.cmd = some j) ∧
+      (Spec.resolve (Spec.lane D (p.map toUpper)) D.commandsNum = none → NotFound s') :=
+  feed_request D tmpl s0 hcap hbuf hnum hst hl0 hlen hidx hct cs hne hall sfx typ hsfx rest
+
+/-- non-vacuity: the three suffixes -/
+example : Suffix [10] .run ∧ Suffix [63, 10] .read ∧ Suffix [61] .write :=
+  ⟨Or.inl ⟨rfl, rfl⟩, Or.inr (Or.inl ⟨rfl, rfl⟩), Or.inr (Or.inr ⟨rfl, rfl⟩)⟩
 
 /-- from COMMAND_FOUND as a RUN request for entry `j`: the next call answers ERROR (entry `j` has no
 run handler) or enters the run loop, whose first call invokes the run handler of `j` and nothing else -/
